@@ -27,6 +27,10 @@ int fprintf(FILE *fp, const char *fmt, ...)
 	va_end(ap);
 	return 0;
 }
+/* the other stdio output routines a printer may use instead of fprintf (same stream, same bytes) */
+int fputc(int c, FILE *fp) { g_fp_seen = fp; out_byte((unsigned char)c); return (unsigned char)c; }
+int fputs(const char *s, FILE *fp) { g_fp_seen = fp; for (unsigned k = 0; k < OUTMAX && s[k]; k++) out_byte((unsigned char)s[k]); return 0; }
+size_t fwrite(const void *p, size_t sz, size_t n, FILE *fp) { const unsigned char *b = p; g_fp_seen = fp; for (size_t k = 0; k < OUTMAX && k < sz * n; k++) out_byte(b[k]); return n; }
 static void out_reset(void) { g_outn = 0; g_out_overflow = 0; g_nlong = g_ndbl = 0; g_bad_conversion = 0; }
 static _Bool out_equals(const unsigned char *want, unsigned n)
 {
